@@ -382,8 +382,51 @@ type zzC20Run struct {
 	callStart *atomic.Int64
 	// inflight describes the call in progress, for the hang report.
 	inflight atomic.Value
-	calls    int
-	seeked   bool
+	// kept holds every line exactly as ReadNext returned it (the string
+	// value, no copy) until the end of the case; keptAt is the line it was
+	// recognised as at that moment.  The statement is about the SEQUENCE of
+	// values returned: what the records finally say is what these values are
+	// at the end of the behaviour, after all later reads and seeks on the
+	// same object (see finish).
+	kept   []string
+	keptAt []int
+	// fin are the finalisers that fill the line indices into the records.
+	fin    []func()
+	calls  int
+	seeked bool
+}
+
+// keep retains a returned line and reports what it is right now.
+func (r *zzC20Run) keep(line string) (slot, g int) {
+	g = r.bl.identify(line)
+	r.kept = append(r.kept, line)
+	r.keptAt = append(r.keptAt, g)
+
+	return len(r.kept) - 1, g
+}
+
+// final reports what the retained value in slot is at the end of the case.
+func (r *zzC20Run) final(slot int) (g int, note string) {
+	g = r.bl.identify(r.kept[slot])
+	if g != r.keptAt[slot] {
+		note = fmt.Sprintf("a returned value changed after it was returned: was line %d, is now %d (len=%d head=%.40q)",
+			r.keptAt[slot], g, len(r.kept[slot]), r.kept[slot])
+		g = -1
+	} else if g < 0 {
+		note = fmt.Sprintf("not a stored line: len=%d head=%.60q", len(r.kept[slot]), r.kept[slot])
+	}
+
+	return g, note
+}
+
+// finish runs the finalisers.  It is called once, by the goroutine that
+// writes the records out, after the case has ended (or hung).
+func (r *zzC20Run) finish() {
+	for _, f := range r.fin {
+		f()
+	}
+
+	r.fin, r.kept, r.keptAt = nil, nil, nil
 }
 
 func (r *zzC20Run) guard(what string, f func()) {
@@ -426,13 +469,15 @@ func (r *zzC20Run) edge(act string, arg int64) (res string) {
 		var line string
 		r.guard("ReadNext", func() { line, res, detail = r.d.read() })
 		if res == "ok" {
-			g := r.bl.identify(line)
-			if g < 0 {
-				res = "fragment"
-				detail = fmt.Sprintf("len=%d head=%.60q", len(line), line)
-			} else {
-				rec["line"] = g
-			}
+			slot, _ := r.keep(line)
+			r.fin = append(r.fin, func() {
+				g, note := r.final(slot)
+				if g < 0 {
+					rec["res"], rec["detail"] = "fragment", note
+				} else {
+					rec["line"] = g
+				}
+			})
 		}
 	}
 
@@ -568,8 +613,8 @@ func (r *zzC20Run) ops() {
 
 // reads performs up to k ReadNext calls (k < 0: until eof was reported once).
 func (r *zzC20Run) reads(rec zzC20Rec, k int, detail bool) {
-	idx := []int{}
-	runs := [][2]int{}
+	// Per call: the slot of the retained line (-1: io.EOF, -2: read error).
+	slots := []int{}
 	poss, bss, cfs := []int64{}, []int64{}, []int{}
 	eof := false
 	bad := ""
@@ -578,30 +623,25 @@ func (r *zzC20Run) reads(rec zzC20Rec, k int, detail bool) {
 		var line, res, dt string
 		r.guard("ReadNext", func() { line, res, dt = r.d.read() })
 		n++
-		g := 0
 		switch res {
 		case "ok":
-			g = r.bl.identify(line)
+			slot, g := r.keep(line)
+			slots = append(slots, slot)
 			if g < 0 {
-				bad = fmt.Sprintf("fragment at read %d: len=%d head=%.60q", n, len(line), line)
+				// Garbage already now: no point in reading on.
+				bad = fmt.Sprintf("fragment at read %d", n)
 			}
 		case "eof":
 			eof = true
+			slots = append(slots, -1)
 		default:
-			g = -2
+			slots = append(slots, -2)
 			bad = "read error: " + dt
 		}
 
 		if detail {
 			cf, pos, bs, _ := r.d.proj()
-			idx = append(idx, g)
 			poss, bss, cfs = append(poss, pos), append(bss, bs), append(cfs, cf+1)
-		} else if res == "ok" {
-			if l := len(runs); l > 0 && g > 0 && runs[l-1][1] == g+1 {
-				runs[l-1][1] = g
-			} else {
-				runs = append(runs, [2]int{g, g})
-			}
 		}
 
 		if eof || bad != "" {
@@ -611,14 +651,50 @@ func (r *zzC20Run) reads(rec zzC20Rec, k int, detail bool) {
 
 	rec["op"], rec["n"], rec["eof"] = "reads", n, eof
 	if detail {
-		rec["idx"], rec["ps"], rec["bss"], rec["cfs"] = idx, poss, bss, cfs
-	} else {
-		rec["runs"] = runs
+		rec["ps"], rec["bss"], rec["cfs"] = poss, bss, cfs
 	}
 
 	if bad != "" {
 		rec["detail"] = bad
 	}
+
+	// The indices of the returned lines are filled in at the end of the case,
+	// from the retained values.
+	r.fin = append(r.fin, func() {
+		idx := []int{}
+		runs := [][2]int{}
+		for _, slot := range slots {
+			g := 0
+			switch {
+			case slot == -2:
+				g = -2
+			case slot >= 0:
+				var note string
+				g, note = r.final(slot)
+				if note != "" {
+					if _, ok := rec["detail"]; !ok {
+						rec["detail"] = note
+					}
+				}
+			}
+
+			if detail {
+				idx = append(idx, g)
+			} else if slot != -1 {
+				if l := len(runs); l > 0 && g > 0 && runs[l-1][1] == g+1 {
+					runs[l-1][1] = g
+				} else {
+					runs = append(runs, [2]int{g, g})
+				}
+			}
+		}
+
+		if detail {
+			rec["idx"] = idx
+		} else {
+			rec["runs"] = runs
+		}
+	})
 }
 
 // TestZZVerifC20Run executes the cases of VERIF_IN and logs to VERIF_OUT.
@@ -712,6 +788,9 @@ func TestZZVerifC20Run(t *testing.T) {
 				}
 			}
 		}
+
+		// The retained lines are looked at now, at the end of the behaviour.
+		run.finish()
 
 		mu.Lock()
 		for _, r := range recs {
